@@ -2136,19 +2136,38 @@ class KmipEngine(object):
         # TODO (peterhamilton): Pull cryptographic parameters from the keying
         # object if none are provided with the payload
         crypto_parameters = derivation_parameters.cryptographic_parameters
-        derived_data = self._cryptography_engine.derive_key(
-            derivation_method=payload.derivation_method,
-            derivation_length=derivation_length,
-            derivation_data=derivation_data,
-            key_material=keying_object.value,
-            hash_algorithm=crypto_parameters.hashing_algorithm,
-            salt=derivation_parameters.salt,
-            iteration_count=derivation_parameters.iteration_count,
-            encryption_algorithm=crypto_parameters.cryptographic_algorithm,
-            cipher_mode=crypto_parameters.block_cipher_mode,
-            padding_method=crypto_parameters.padding_method,
-            iv_nonce=iv
-        )
+        if crypto_parameters is None:
+            raise exceptions.InvalidField(
+                "The cryptographic parameters must be provided in the "
+                "derivation parameters."
+            )
+        if derivation_length <= 0:
+            raise exceptions.InvalidField(
+                "The cryptographic length must be a positive number of bits."
+            )
+        try:
+            derived_data = self._cryptography_engine.derive_key(
+                derivation_method=payload.derivation_method,
+                derivation_length=derivation_length,
+                derivation_data=derivation_data,
+                key_material=keying_object.value,
+                hash_algorithm=crypto_parameters.hashing_algorithm,
+                salt=derivation_parameters.salt,
+                iteration_count=derivation_parameters.iteration_count,
+                encryption_algorithm=crypto_parameters.cryptographic_algorithm,
+                cipher_mode=crypto_parameters.block_cipher_mode,
+                padding_method=crypto_parameters.padding_method,
+                iv_nonce=iv
+            )
+        except exceptions.KmipError:
+            raise
+        except Exception as e:
+            self._logger.exception(e)
+            raise exceptions.CryptographicFailure(
+                "The key could not be derived with the specified length and "
+                "derivation parameters. See the server log for more "
+                "information."
+            )
 
         if derivation_length > len(derived_data):
             raise exceptions.CryptographicFailure(
